@@ -8,7 +8,7 @@ The output is pure 7-bit ASCII (non-ASCII characters are written as \\uN? or \\'
 contains no CR/LF at all (CR/LF are noise in RTF; see opts "eol").
 
 File layout (RTF 1.9.1 "Contents of an RTF file"):
-    {\\rtf1\\ansi\\ansicpg1252\\uc1\\deff0\\deflang1033 <fonttbl> <colortbl> <stylesheet> [<listtable> <listoverridetable>]
+    {\\rtf1\\ansi\\ansicpg1252[\\uc1]\\deff0\\deflang1033 <fonttbl> <colortbl> <stylesheet> [<listtable> <listoverridetable>]
      [<revtbl>] [<info>] <docfmt> \\sectd [{\\header ..}] [{\\footer ..}] <paragraphs / table rows> }
 
 Mapping of the ADM:
@@ -37,7 +37,7 @@ Mapping of the ADM:
     sdt, box, math, sheets, unit extras (notes/comments/name), gif/bmp images -> NotImplementedError
 
 opts (all optional):
-    "page_break":  "page" (default)  -> a paragraph holding \\page        | "sbkpage" -> \\sect\\sectd\\sbkpage
+    "page_break":  "page" (default)  -> a paragraph holding \\page        | "sbkpage" -> \\pard\\plain..\\sect\\sectd\\sbkpage
     "escape":      "u" (default)     -> every non-ASCII char as \\uN? (signed 16 bit, non-BMP as surrogate pair)
                    "hex"             -> chars that exist in cp1252 as \\'xx, everything else as \\uN?
     "list_style":  "listtext" (default) | "pntext"
@@ -45,6 +45,9 @@ opts (all optional):
     "pict_wrap":   "none" (default)  | "shppict" -> {\\*\\shppict{\\pict ..}} as Word writes
     "hex_wrap":    0 (default: picture hex on one line) | n -> a line break after every n bytes (Word: 64)
     "eol":         "" (default) | "\\n" | "\\r\\n"  -> written after every \\par, \\cell, \\row, \\sect and header group
+    "row_props":   "before" (default) -> \\trowd.. once, in front of the cells | "both" -> repeated as {\\trowd..\\row}
+                   at the end of the row (what Word 2000+ writes)
+    "uc":          None (default) -> no \\uc keyword (the spec default of 1 applies) | 1 -> \\uc1 in the header as Word writes
 """
 from __future__ import annotations
 
@@ -72,7 +75,7 @@ MAX_LIST_LEVELS = 9        # a \list has exactly 1 or 9 \listlevel entries
 # ----------------------------------------------------------------------------------------------------------------------
 
 def _u(n: int) -> str:
-    """\\uN? with N as signed 16-bit decimal; '?' is the one-byte fallback announced by \\uc1."""
+    """\\uN? with N as signed 16-bit decimal; '?' is the one-byte fallback (\\uc1, which is also the default)."""
     return "\\u%d?" % (n - 0x10000 if n >= 0x8000 else n)
 
 
@@ -163,6 +166,8 @@ class _R:
         self.pict_wrap = o.pop("pict_wrap", "none")
         self.hex_wrap = int(o.pop("hex_wrap", 0) or 0)
         self.eol = o.pop("eol", "")
+        self.row_props = o.pop("row_props", "before")
+        self.uc = o.pop("uc", None)
         if o:
             raise ValueError("unknown rtf opts: %s" % sorted(o))
         if self.page_break not in ("page", "sbkpage"):
@@ -177,6 +182,10 @@ class _R:
             raise ValueError("pict_wrap")
         if self.eol not in ("", "\n", "\r\n"):
             raise ValueError("eol")
+        if self.row_props not in ("before", "both"):
+            raise ValueError("row_props")
+        if self.uc not in (1, None):
+            raise ValueError("uc")
         self.uses_lists = False
         self.uses_rev = False
 
@@ -294,8 +303,6 @@ class _R:
             elif k == "ul":
                 out.extend(self.ul(b[1], depth, lvl, width))
             elif k == "tbl":
-                if out and out[-1][0] == "tbl":
-                    out.append(("p", self.popen(depth, indent)))      # RTF has no table container: keeps two tables apart
                 out.append(("tbl", self.tbl(b[1], depth + 1, width)))
             elif k == "pb":
                 if not top:
@@ -303,6 +310,16 @@ class _R:
                 out.append(("pb", None))
             else:
                 raise NotImplementedError("unknown block %r" % (k,))
+        return out
+
+    def separate(self, parts, depth: int):
+        """RTF has no table container (consecutive rows are one table): an empty paragraph keeps two tables apart.
+        Applied to the flattened part list of a unit or of a cell, so that tables coming from list items count too."""
+        out = []
+        for part in parts:
+            if part[0] == "tbl" and out and out[-1][0] == "tbl":
+                out.append(("p", self.popen(depth)))
+            out.append(part)
         return out
 
     def ul(self, items, depth: int, lvl: int, width: int):
@@ -341,7 +358,7 @@ class _R:
             props = "\\trowd\\trgaph108\\trleft-108" + "".join("\\cellx%d" % (cw * (i + 1)) for i in range(n))
             cells = []
             for cell in row:
-                parts = self.blocks(cell, depth, 0, 0, False, max(480, cw - 216))
+                parts = self.separate(self.blocks(cell, depth, 0, 0, False, max(480, cw - 216)), depth)
                 s = []
                 for i, (kind, text) in enumerate(parts):
                     if kind == "p" and i < len(parts) - 1:
@@ -351,7 +368,9 @@ class _R:
                 if not parts or parts[-1][0] == "tbl":
                     s.append(self.popen(depth))          # the paragraph that carries the end-of-cell mark
                 cells.append("".join(s) + endcell + self.eol)
-            if depth == 1:
+            if depth == 1 and self.row_props == "both":     # Word 2000+: definition repeated in front of \\row
+                out.append(props + self.eol + "".join(cells) + self.popen(1) + "{" + props + "\\row}" + self.eol)
+            elif depth == 1:
                 out.append(props + self.eol + "".join(cells) + "\\row" + self.eol)
             else:
                 out.append("".join(cells) + "{\\*\\nesttableprops" + props + "\\nestrow}{\\nonesttables\\par}" + self.eol)
@@ -361,7 +380,7 @@ class _R:
     def brk(self) -> str:
         if self.page_break == "page":
             return self.popen(0) + "\\page\\par" + self.eol
-        return "\\sect\\sectd\\sbkpage" + self.eol
+        return self.popen(0) + "\\sect\\sectd\\sbkpage" + self.eol     # \\sect ends an (empty, non-table) paragraph
 
     def body(self, doc) -> str:
         out = []
@@ -372,7 +391,7 @@ class _R:
             for k, v in (u[2] or {}).items():
                 if v:
                     raise NotImplementedError("unit extra %r cannot be expressed in RTF" % k)
-            parts = self.blocks(u[1], 0, 0, 0, True, PAGE_TWIPS)
+            parts = self.separate(self.blocks(u[1], 0, 0, 0, True, PAGE_TWIPS), 0)
             if ui:
                 parts.insert(0, ("pb", None))
             for kind, text in parts:
@@ -399,7 +418,7 @@ def rtf(doc, images=None, opts=None) -> bytes:
             raise NotImplementedError("meta key %r cannot be expressed in RTF" % k)
     body = r.body(doc)          # first: tells which header tables are needed
     e = r.eol
-    head = ["{\\rtf1\\ansi\\ansicpg1252\\uc1\\deff0\\deflang1033" + e,
+    head = ["{\\rtf1\\ansi\\ansicpg1252%s\\deff0\\deflang1033" % ("\\uc1" if r.uc == 1 else "") + e,
             "{\\fonttbl{\\f0\\froman\\fcharset0\\fprq2 Times New Roman;}{\\f1\\froman\\fcharset2\\fprq2 Symbol;}}" + e,
             "{\\colortbl;\\red0\\green0\\blue0;\\red0\\green0\\blue255;}" + e,
             "{\\stylesheet{\\s0\\f0\\fs24 \\snext0 Normal;}"
